@@ -5,7 +5,7 @@
    Under named premises (..._partial): ciphertext / AAD / nonce changes (DESIGN 2.5).
    Refuted (..._refuted): nonce changes in the two HMAC modes (the IV is not MACed; known finding). *)
 From GmVerif Require Import Base.ListX Base.Bytes Hash.Instances Cipher.SM4 Cipher.GF128 Cipher.GCM
-  Cipher.CCM Cipher.Aead Cipher.AeadProofs Cipher.GCMProofs Cipher.CCMProofs Cipher.AeadInstProofs.
+  Cipher.CCM Cipher.AES Cipher.Aead Cipher.AeadProofs Cipher.GCMProofs Cipher.CCMProofs Cipher.AeadInstProofs.
 
 (* ---- the tag window of the three streaming decryptors, for every chunking ---- *)
 Theorem C05_stream_tag_window :
@@ -129,6 +129,17 @@ Theorem C05_sm4_gcm_nonce_flip_rejected :
 Proof. exact sm4_gcm_nonce_change_rejected. Qed.
 Print Assumptions C05_sm4_gcm_nonce_flip_rejected.
 
+(* ... and for AES-GCM by aes_dec_enc *)
+Theorem C05_aes_gcm_nonce_flip_rejected :
+  forall key, (length key = 16 \/ length key = 24 \/ length key = 32)%nat ->
+  forall iv iv' aad c tag p,
+  length tag = 16%nat -> length iv = 12%nat -> length iv' = 12%nat -> iv <> iv' ->
+  bytes_ok iv = true -> bytes_ok iv' = true ->
+  aes_gcm_decrypt key iv aad c tag = Ok p ->
+  forall p', aes_gcm_decrypt key iv' aad c tag <> Ok p'.
+Proof. exact aes_gcm_nonce_change_rejected. Qed.
+Print Assumptions C05_aes_gcm_nonce_flip_rejected.
+
 (* streaming encryption under one chunking, streaming decryption under any other *)
 Theorem C05_gcm_stream_dec_accepts_enc :
   forall E iv aad taglen chunks1 chunks2 s,
@@ -250,6 +261,22 @@ Theorem C05_cbc_hmac_dec_accepts_enc :
   cbc_hmac_spec_decrypt key iv aad (cbc_hmac_spec_encrypt key iv aad p) = Ok p.
 Proof. exact sm4_cbc_hmac_spec_dec_accepts_enc. Qed.
 Print Assumptions C05_cbc_hmac_dec_accepts_enc.
+
+(* the streaming interfaces themselves: encryption under one chunking, decryption under any other *)
+Theorem C05_cbc_hmac_stream_dec_accepts_enc :
+  forall key iv aad chunks1 chunks2,
+  length key = 48%nat -> blk_ok iv -> bytes_ok (concat chunks1) = true ->
+  concat chunks2 = sm4_cbc_sm3_hmac_encrypt key iv aad chunks1 ->
+  sm4_cbc_sm3_hmac_decrypt key iv aad chunks2 = Ok (concat chunks1).
+Proof. exact sm4_cbc_hmac_stream_dec_accepts_enc. Qed.
+Print Assumptions C05_cbc_hmac_stream_dec_accepts_enc.
+
+Theorem C05_ctr_hmac_stream_dec_accepts_enc :
+  forall key iv aad chunks1 chunks2,
+  concat chunks2 = sm4_ctr_sm3_hmac_encrypt key iv aad chunks1 ->
+  sm4_ctr_sm3_hmac_decrypt key iv aad chunks2 = Ok (concat chunks1).
+Proof. exact sm4_ctr_hmac_stream_dec_accepts_enc. Qed.
+Print Assumptions C05_ctr_hmac_stream_dec_accepts_enc.
 
 (* consequences of the two rules above: a stream shorter than 32 bytes, or with a different last
    32 bytes, is rejected (no assumption); a changed ciphertext or AAD is rejected unless HMAC-SM3
